@@ -66,7 +66,7 @@ package server
 //@   requires [notok]   forall x *cache.httpCache :: $tok[x] == 0
 //@   requires [nolocks] nolocks()
 //@   requires [nodebt]  $owed == $sent_total
-//@   modifies heap, $nexts, $clock, $regs, $recv, $recv_total, $owed, $sent, $sent_total, $expbase, $tok
+//@   modifies heap, $nexts, $clock, $regs, $recv, $recv_total, $owed, $sent, $sent_total, $expbase, $tok, $enc
 //@   ensures          [token]     forall x *cache.httpCache :: $tok[x] == 0
 //@   ensures_on_panic [token]     forall x *cache.httpCache :: $tok[x] == 0
 //@   ensures          [nodebt]    $owed == $sent_total
@@ -76,3 +76,23 @@ package server
 //@   ensures          [miss-once] statusOf(c) != cache.StatusHit && err == nil ==> $nexts == old($nexts) + 1
 //@   ensures          [at-most-once] $nexts <= old($nexts) + 1
 //@   ensures          [locks]     nolocks()
+
+// ---- which responses may be stored (proxy.go) ------------------------------------------
+
+//@ axiom [server-regexps]: noCacheReg != nil && sMaxAgeReg != nil && maxAgeReg != nil && numSubexp(sMaxAgeReg) == 1 && numSubexp(maxAgeReg) == 1
+// The literal of noCacheReg (read from the package initialiser) matches exactly the strings that
+// contain one of the three directive names, compared case-insensitively. Proved in SMT string
+// theory; used as a fact about the uninterpreted reMatch in the function VCs.
+//@ lemma [nocache-ci] strings: forall s string :: reMatchLit(noCacheReg, s) <==> (ciContains(s, "no-cache") || ciContains(s, "no-store") || ciContains(s, "private"))
+//@ spec func ccOf(h http.Header) string := joinVals($hdr[h]["Cache-Control"], ",")
+//@ spec func lifetimeOf(cc string) int := reMatch(sMaxAgeReg, cc) ? atoi(reGroup1(sMaxAgeReg, cc)) : (reMatch(maxAgeReg, cc) ? atoi(reGroup1(maxAgeReg, cc)) : 0)
+//@ spec func ageOf(h http.Header) int := (hget($hdr[h], "Age") == "") ? 0 : atoi(hget($hdr[h], "Age"))
+
+// postconditions transcribed from the property statement (C03), not from the code
+//@ func getCacheMaxAge(header http.Header) (maxAge int)
+//@   nopanic
+//@   ensures [cookie] vlen($hdr[header]["Set-Cookie"]) > 0 ==> maxAge == 0
+//@   ensures [nocc]   ccOf(header) == "" ==> maxAge == 0
+//@   ensures [forbid] (ciContains(ccOf(header), "no-cache") || ciContains(ccOf(header), "no-store") || ciContains(ccOf(header), "private")) ==> maxAge == 0
+//@   ensures [value]  vlen($hdr[header]["Set-Cookie"]) == 0 && ccOf(header) != "" && !(ciContains(ccOf(header), "no-cache") || ciContains(ccOf(header), "no-store") || ciContains(ccOf(header), "private"))
+//@                      ==> maxAge == wrap64(lifetimeOf(ccOf(header)) - ageOf(header))
